@@ -179,6 +179,8 @@ class Prog:
                 t['fields'] = []
             if t['kind'] == 'tuple' and not t.get('tuple'):
                 t['tuple'] = []
+            if t['kind'] == 'array' and 'len' not in t:
+                t['len'] = 0
         self.T = {t['id']: t for t in D['types']}
         self.TS = {t['str']: t for t in D['types']}
         self.F = {f['id']: f for f in D['funcs']}
@@ -300,6 +302,7 @@ class Machine:
         self.effects = []        # environment effect log (stubs append here)
         self.stdout = []
         self.map_order_hook = None
+        self.init_allow = set()
         self.store_hook = None
         self.env = {}
 
@@ -400,6 +403,8 @@ class Machine:
         if h is not None:
             return h(self, args)
         fn = self.p.F.get(fid)
+        if fid.endswith('.init') and fid not in self.init_allow:
+            return None       # package initialisers other than the requested ones are not run
         if fn is None:
             if fid.endswith('.init') or '.init#' in fid:
                 return None
@@ -1102,7 +1107,7 @@ class Machine:
         fn = self.p.F.get(fid)
         if fn is None:
             return
-        # the synthesized init calls dependency inits first: those are externs -> skip silently
+        self.init_allow.add(fid)
         self.run_init_fn(fn)
 
     def run_init_fn(self, fn):
